@@ -153,3 +153,40 @@ def rule_grattr(ctx):
             ctx.holds("GRATTR", key, f.where(), "%d attribute change(s): the owner's change flag is set on every non-failing path" % len(a.changes), nontrivial=True)
     ctx.floor("GRATTR", 3, n, "(attribute changes in the GR interface)")
     return n
+
+
+def rule_grattr_link(ctx):
+    """GRLINK: GRend writes out attributes in two loops (per image, global).  An attribute created in this session
+    (`new_at`) must be linked into its Vgroup whether or not its data still has to be written (`data_modified`): GRsetattr
+    writes attributes that are too large to cache at once and leaves data_modified FALSE.  Every `if` on `new_at` in GRend is
+    therefore not nested inside an `if` on `data_modified`, and its body links the attribute with Vaddtagref."""
+    from .codec import ast_walk
+    prog = ctx.prog
+    f = prog.func("GRend")
+    if f is None:
+        ctx.unrecognised("GRLINK", "GRLINK:GRend", "-", "GRend not found")
+        return 0
+    found = []
+
+    def mentions(e, fld):
+        return any(x[0] == "mem" and x[2] == fld for x in walk(e, True))
+
+    def vis(n, st):
+        if n[0] == "if" and mentions(n[1], "new_at"):
+            nested = [s for s in st if s[0] == "if" and mentions(s[1], "data_modified")]
+            from .codec import ast_calls
+            links = [c for c in ast_calls(n[2]) if c[1] == "Vaddtagref"]
+            found.append((n, bool(nested), bool(links)))
+        return True
+    ast_walk(f.raw.get("ast"), vis)
+    for i, (n, nested, links) in enumerate(found):
+        key = "GRLINK:GRend#%d" % (i + 1)
+        if nested:
+            ctx.violated("GRLINK", key, f.where(n[-3] if isinstance(n[-3], int) else None), "the `new_at` test is nested inside a `data_modified` test: a new attribute whose data was already written "
+                         "(too large to cache) is never linked into its Vgroup and is lost at close")
+        elif not links:
+            ctx.violated("GRLINK", key, f.where(), "the `new_at` branch no longer links the attribute with Vaddtagref")
+        else:
+            ctx.holds("GRLINK", key, f.where(), "new attributes are linked independently of data_modified", nontrivial=True)
+    ctx.floor("GRLINK", 2, len(found), "(new_at tests in GRend: per-image and global loop)")
+    return len(found)
